@@ -138,11 +138,11 @@ class Ctx:
         r, model, dt, _ = smt.check(cs + tr.side() + [neg], self.timeout_ms)
         return self._finish(name, r, model, time.time() - t0, "pred", replay, key, None)
 
-    def fail(self, name, detail, replay=None, key=None, model=None):
+    def fail(self, name, detail, replay=None, key=None, model=None, how=None):
         """a violation established without a solver query on this obligation (e.g. real exception on a feasible path)."""
         return self._finish(name, "sat", model, 0.0, "path", replay, key, None, detail=detail)
 
-    def ok(self, name, how="path", detail=None, key=None, replay=None):
+    def ok(self, name, how="path", detail=None, key=None, replay=None, model=None):
         return self._rec(name, "unsat", 0.0, "path", how=how, detail=detail)
 
     def model_for(self, pc=(), assume=()):
